@@ -1020,6 +1020,39 @@ def predicate(case, r):
     return None
 
 
+def proved_bound_check(case, r):
+    """The inequality of theorem C02_float_gap_slope_only, evaluated verbatim where its hypotheses
+    hold: float64 data (binary64 working format), stored intercept 0, binary64 reload, every
+    finite element with |x/s| <= 2^52, and the element unclipped (stored integer =
+    rint(RN(x/s))):  |reload - x| <= |s|/2 + |x| * 2^-52 + |s| * 2^-52.
+    Returns (number of elements checked, message or None)."""
+    from fractions import Fraction
+    if case['kind'] != 'f' or case['k'] != 2 or r.get('status') != 'ok':
+        return 0, None
+    if r['inter_f'] != 0.0 or r['slope_f'] == 0.0 or r['back'].dtype != np.float64:
+        return 0, None
+    s = Fraction(r['slope_f'])
+    xs = exact_inputs(case)
+    fin = [x for x in xs if not isinstance(x, str)]
+    if not fin or any(abs(x / s) > 2 ** 52 for x in fin):
+        return 0, None
+    n = 0
+    back = r['back'].ravel()
+    arr = case_array(case).ravel(order='F')
+    with np.errstate(all='ignore'):
+        k_rn = np.rint(arr / np.float64(r['slope_f']))      # rint(RN(x/s)) in binary64
+    for j, x in enumerate(xs):
+        if isinstance(x, str) or float(k_rn[j]) != float(r['raw'][j]):
+            continue                                        # NaN/inf or clipped: theorem (d), not (b)
+        n += 1
+        b = Fraction(float(back[j]))
+        bound = abs(s) / 2 + abs(x) * Fraction(1, 2 ** 52) + abs(s) * Fraction(1, 2 ** 52)
+        if abs(b - x) > bound:
+            return n, (f'element {j}: {float(x)!r} reloads as {float(b)!r}: error {float(abs(b - x))!r} exceeds the '
+                       f'PROVED bound |s|/2 + |x|*2^-52 + |s|*2^-52 = {float(bound)!r} of C02_float_gap_slope_only')
+    return n, None
+
+
 def known_signature(case, r, pred):
     """Structural classification of a predicate failure (call site + input shape)."""
     from fractions import Fraction
@@ -1039,17 +1072,18 @@ def known_signature(case, r, pred):
 UNPROVED = [
     'C02_float_gap (general statement): NOT PROVED - that every finite element of the exact float pipeline reloads '
     'within |slope|/2 + the stated allowance of its value (false for subnormal stored slopes, finding S-C02c). '
-    'Proved pieces: C02_no_wrap_float / _platform / _inputs (no wrap in the float layer, hypotheses on the inputs '
-    'only), C02_reload_is_rounding (binary64 reload = RN(RN(raw*slope)+inter) for |raw| < 2^53, float32 slope/inter), '
-    'C02_read_error_real and C02_float_gap_real_partial (rounding-operator bounds: read side; write+read in the '
-    'slope-only branch inside the clip range). Missing: (a) identification of the WRITE side (Bminus/Bdiv in the '
-    'float32, binary64 and longdouble working formats, element conversions) with the rounding operator under '
-    'no-overflow guards; (b) the error of the float32 rounding of slope and intercept against the ideal values of '
-    '_range_scale; (c) the intercept branch (cancellation in x - inter) and clipped elements; (d) turning the ulp '
-    'terms into the stated allowance. Measured on every case by the direct predicate; the float layer is tied to '
-    'the implementation bit for bit',
-    'C02_reload_is_rounding covers the NIfTI route (binary64 reload) only; the float32 reload of SPM99 and the '
-    'longdouble fallback of int_scinter_ftype are modelled and compared, not analysed',
+    'Proved for the binary64 working format, per element: C02_write_read_rounding (write and read are compositions of '
+    'rounding operators), C02_float_gap_slope_only (explicit bound |s|/2 + |x|*2^-52 + |s|*2^-52, evaluated verbatim '
+    'by this harness in its regime), C02_float_gap_intercept_partial (ulp form), C02_clipped_above/_below, '
+    'C02_setter_rounding (float32 setter: relative error 2^-24, absolute 2^-150 when subnormal), plus '
+    'C02_no_wrap_float(_platform/_inputs) and C02_reload_is_rounding. Missing exactly: (1) the float32 and longdouble '
+    'working formats and the float32 reload of SPM99; (2) the intercept branch with its ulp terms turned into an '
+    'explicit allowance; (3) the lift from one element to writer_write/apply_read_scaling on whole arrays (choice of '
+    'the working format, identification of q_mn/q_mx, no-overflow guards for all elements, 64-bit integer elements '
+    '>= 2^53); (4) how far extreme elements overshoot the clip range given the 2^-24 relative error of the stored '
+    'slope/intercept (unbounded for a subnormal slope); (5) comparison of the proved allowances with the harness '
+    'allowance outside the slope-only regime. Measured on every case by the direct predicate; the float layer is '
+    'tied to the implementation bit for bit',
     'NumPy rint / clip / astype / int->float conversions are modelled (Flocq Bnearbyint, Bcompare, binary_normalize) '
     'and compared bit for bit, not verified',
 ]
@@ -1272,10 +1306,10 @@ def run(chk: Check):
     # ------------------------------------------------------------ integer layer
     ilines, iops = int_layer(chk, facts)
     cases = (core_cases(quick=chk.tier == 'quick') + multislab_core(quick=chk.tier == 'quick')
-             + random_cases(chk.rng, chk.n(2500, 60000)) + multislab_random(chk.rng, chk.n(500, 12000)))
+             + random_cases(chk.rng, chk.n(2000, 60000)) + multislab_random(chk.rng, chk.n(350, 12000)))
     rlines, finite_range_eval = finite_range_item(chk, cases)
     alines = [model_line(i, c) for i, c in enumerate(cases)]
-    qcases = ideal_cases(chk.rng, chk.n(1000, 20000))
+    qcases = ideal_cases(chk.rng, chk.n(700, 20000))
     qlines = [ideal_line(j, c) for j, c in enumerate(qcases)]
     # the extracted model runs (8 processes) while this process runs the implementation
     from concurrent.futures import ThreadPoolExecutor
@@ -1364,6 +1398,11 @@ def run(chk: Check):
         pred = None
         if r['status'] == 'ok':
             pred = predicate(c, r)
+            npb, pbmsg = proved_bound_check(c, r)
+            if npb:
+                chk.tagc('proved_bound_C02_float_gap_slope_only:elements', npb)
+            if pred is None and pbmsg:
+                pred = pbmsg
             if pred is None and any(s == 'write_cast' for s, _ in r['warn']):
                 pred = 'NumPy reported an invalid value in the final integer cast of _write_data (wrap-around)'
             if pred is None and m.get('status') == 'ok' and m.get('bad') == '1' and not dis:
